@@ -10,5 +10,9 @@ pins = {}
 for l in open("/verif/properties.jsonl"):
     q = json.loads(l)
     pins[q["id"]] = {f: core.source_fingerprint(core.REPO / f) for f in q["anchors"]["files"]}
+# every Python file of the package, for every property: a change in a shared helper (utils, node_port, tys, ops,
+# _serialization, …) reaches most properties through code paths no anchor list names
+pins["*"] = {str(p.relative_to(core.REPO)): core.source_fingerprint(p)
+             for p in sorted((core.REPO / "hugr-py" / "src" / "hugr").rglob("*.py"))}
 json.dump(pins, open("/verif/harness/model_pins.json", "w"), indent=1, sort_keys=True)
 print("pinned", sum(len(v) for v in pins.values()), "files")
